@@ -53,7 +53,11 @@ def run(tier):
                  # constant offsets 1e12 times the fluctuations (order 0, bins outside the 200 dB main lobe): a channel analysed alone
                  # and in a pair goes through different kernels, which must remove the segment mean equally well
                  extra=[dict(N=60000, fs=10.0, data="hugeoffset", sched="ltf", win="kaiser", order=0, backend=b, Jdes=40, Kdes=20, Lmin=1, psll=200, bmin=10.0)
-                        for b in ("numba", "numpy")])
+                        for b in ("numba", "numpy")] +
+                       # the same with a Hann window and bins inside the main lobe of DC (short segments on a long record): whatever error the
+                       # mean removal leaves, it must be the same error alone and in a pair
+                       [dict(N=131072, fs=1.0, data="hugeoffset", sched="vectorized_ltf", win="hann", order=0, backend="numba", Jdes=40, Kdes=50, Lmin=1, psll=120,
+                             variants=[("alone",), ("swap",)])])       # (no gain variant: inside the main lobe the rounding of the removed mean is not small)
     items = [(k, o, b, s, f) for k in ("zero_y", "zero_x", "const", "identical", "negated", "both_zero") for o in (-1, 0, 1, 2)
              for b in ("numba", "numpy") for s in ("ltf", "vectorized_ltf") for f in ("values_first", "errors_first", "frame_first")]
     out = common.pmap(degenerate, items, chunksize=4)
